@@ -317,6 +317,18 @@ class ExprBuilder:
             return a[0].str.replace_all(a[1], a[2])
         if op == "str_len":
             return a[0].str.len()
+        if op in ("str_upper", "str_lower", "str_strip"):
+            return getattr(a[0].str, op[4:])()
+        if op == "str_slice":
+            return a[0].str.slice(a[1], a[2])
+        if op == "pow":
+            return a[0] ** a[1]
+        if op == "round":
+            return a[0].round(a[1])
+        if op in ("exp", "log", "log10", "sqrt", "cbrt", "sin", "cos", "tan", "asin", "acos", "atan"):
+            return getattr(a[0], op)()
+        if op.startswith("dt_"):
+            return getattr(a[0].dt, op[3:])()
         if op == "fill_null":
             return a[0].fill_null(a[1])
         if op == "is_in":
